@@ -90,7 +90,7 @@ static verif::Result exec(const Script& sc, const verif::Config& cfg)
 //                  trigger/reset after its last activate; the others trigger, wait, wait_for, wait_forActivation
 //                  (and waitActivation when the controller never resets and the variable gets active).
 //  F2 timed      : everybody does everything, but only timed waits; at most one thread resets.
-//  F3 handshake  : exactly one activate() in the whole script, no reset; a releaser thread insists
+//  F3 handshake  : exactly one activate() in the whole script, no reset; ONE releaser thread insists
 //                  (`tspin`) until its trigger() succeeds; all four waits anywhere.
 //  F4 shutdown   : constructed active, nobody activates; several resetters / triggerers / waiters; one
 //                  thread starts with trigger or reset.
@@ -170,7 +170,8 @@ static Script gen(Rng& r, int size)
         s.config = "0";
         static const std::vector<std::string> pre = {"wait", "waitFor", "waitForAct", "trigger", "isActive", "isTriggered"};
         static const std::vector<std::string> nonblocking = {"trigger", "waitFor", "waitForAct", "isActive", "isTriggered"};
-        static const std::vector<std::string> full = {"trigger", "tspin", "wait", "wait", "waitFor", "waitAct", "waitAct",
+        // (only ONE thread spins: two spinners un-yield each other and an unfair schedule could starve the activator)
+        static const std::vector<std::string> full = {"trigger", "wait", "wait", "waitFor", "waitAct", "waitAct",
                                                       "waitForAct", "isActive", "isTriggered"};
         std::vector<std::string> act;
         for (int i = r.below(3); i > 0; --i) {
